@@ -46,7 +46,7 @@ def run(ck):
         # property on the observed run itself: distinct gap-free nonces, one seeding
         nonces = [int(x.split("/")[0]) for x in ii.split("|")[0].split() if "/" in x]
         seed = ii.split("seedings=")[1].split()[0] if "seedings=" in ii else "?"
-        if sorted(nonces) != list(range(len(nonces))) or seed != "1" or "INCOMPLETE" in ii: fails.append((st, l, ii, mm))
+        if sorted(nonces) != list(range(len(nonces))) or seed != "1" or "INCOMPLETE" in ii or "PASSED-UNSEEDED" in ii: fails.append((st, l, ii, mm))
         elif ii != mm: corr.append((st, l, ii, mm))
     # free-running stress: every request gets a distinct nonce, the set is gap free, one seeding
     sx, out = build([], "h_prngconc_free")
@@ -85,7 +85,7 @@ def run(ck):
         ck.violation(("schedule correspondence broken on %d schedules (the property held on each observed run), e.g. '%s' impl='%s' model='%s'" % (len(corr), corr[0][1][:120], corr[0][2][:120], corr[0][3][:120])) if corr
                      else "proof obligation no longer checks: %s" % ck.proof["broken"], {"examples": [c[1] for c in corr[:5]], "broken_obligation": ck.proof.get("broken")}, tag="correspondence", no_input=True)
     ck.assumptions = ["atomicity of std::atomic::fetch_add and the C++11 guarantee that a function-local static is initialised exactly once are trusted",
-                      "a thread that would block inside the one-time initialisation is modelled as a no-op step; the cooperative scheduler does not release it",
+                      "a thread that would block inside the one-time initialisation is modelled as a no-op step; the cooperative scheduler releases it and requires that it reaches no further point while the owner is inside (25 ms; PASSED-UNSEEDED otherwise)",
                       "real data races are observable only at run time (TSan stress in the thorough tier); the theorem is about the interleaving model"]
     return ck.finish(trusted=["coqc 8.16.1 kernel", "extraction + driver.ml", "h_prngconc.cpp cooperative scheduler + hook points (NFLLIB_VERIF)", "ThreadSanitizer (thorough)"])
 
